@@ -19,6 +19,9 @@ def scenarios(tier):
     out = [Scenario('wid', n0=1, pat='obedient', tier=tier), Scenario('wid', n0=2, pat='first-stubborn', tier=tier)]
     # two overlapping requests (the kill command does not take the exclusive slot) on workers that outlive the stop signal
     out.append(Scenario('wid', n0=1, pat='stubborn', tier=tier, req2=True))
+    # the environment changes at run time (set env): every later worker is executed with the value in force when it was
+    # spawned, in its argv ($(circus.env.mode)) as in its environment
+    out.append(Scenario('wid', n0=1, pat='obedient', tier=tier, envset=True))
     if tier != 'quick':
         out += [Scenario('wid', n0=2, pat='slow', tier=tier), Scenario('wid', n0=3, pat='obedient', tier=tier),
                 Scenario('wid', n0=2, pat='slow', tier=tier, req2=True)]
@@ -42,6 +45,11 @@ def alphabet(world):
     w = world.watcher('a')
     if w is None:
         return []
+    if getattr(world, 'envset', False):
+        cur = (w.env or {}).get('mode')
+        nxt = {'blue': 'green', 'green': 'red'}.get(cur, 'blue')
+        return [Req('set', label='set(env.mode=%s)' % nxt, name='a', options={'env': {'mode': nxt}}),
+                Req('incr', name='a'), Req('restart', name='a'), Req('reload', name='a'), Req('kill', name='a')]
     evs = [Req('decr', name='a'), Req('restart', name='a'), Req('reload', name='a'),
            Req('reload', label='reload(sequential)', name='a', sequential=True),
            Req('reload', label='reload(terminate)', name='a', graceful=False), Req('kill', name='a')]
@@ -58,6 +66,11 @@ def run(scn, ch):
     tier = scn.tier
 
     def make_world(ch):
+        if scn.p.get('envset'):
+            w = World(ch, [WSpec('a', numprocesses=scn.n0, cmd='worker --mode $(circus.env.mode) --wid $(circus.wid)',
+                                 env={'mode': 'blue'}, graceful_timeout=G, behaviours=pattern(scn.pat))])
+            w.envset = True
+            return w
         return World(ch, [WSpec('a', numprocesses=scn.n0, cmd='worker --wid $(circus.wid)', graceful_timeout=G,
                                 behaviours=pattern(scn.pat))])
 
@@ -91,6 +104,17 @@ def run(scn, ch):
         res.check('C13.wid_unique', not clash,
                   lambda: 'workers alive at the same time were executed with the same wid (pid, pid, wid): %s (after %s)'
                   % (clash, ev_lab), where='watcher._nextwid/while-both-alive', nontrivial=len(procs) > 1)
+        if scn.p.get('envset'):
+            for p in world.kernel.spawn_log:
+                if (p.watcher or '') != 'a':
+                    continue
+                argv = [str(x) for x in (p.argv if isinstance(p.argv, list) else [p.argv])]
+                mode_arg = argv[argv.index('--mode') + 1] if '--mode' in argv and argv.index('--mode') + 1 < len(argv) else None
+                mode_env = (p.env or {}).get('mode')
+                res.check('C13.argv_follows_env', mode_arg == mode_env,
+                          lambda: 'worker %d was executed with --mode %r in its argv but mode=%r in its environment (after %s)'
+                          % (p.pid - PID_BASE, mode_arg, mode_env, ev_lab), where='watcher.spawn_process/cmd-template',
+                          nontrivial=mode_env != 'blue')
         # the wid the daemon reports for a process is the one it was executed with
         st = world.ask('stats', name='a')
         if st and st.get('status') == 'ok':
